@@ -13,5 +13,11 @@ sys.path.insert(0, ".")
 from rules import facts
 d = facts.extract(config="default")
 print("facts:", d)
+from rules import selftest
+n, fails = selftest.run()
+print("engine self-test: %d expectations, %d failed" % (n, len(fails)))
+if fails:
+    print("\n".join(fails))
+    sys.exit(1)
 PY
 echo "setup ok"
